@@ -1,18 +1,20 @@
 // Part 5 (this file): the fixed-exponent ADDITION CHAINS, emitted as DATA for the deep-embedded chain language of
 // lean/GnarkVerif/Model/Chain.lean (Gen/Chains/Fields.lean, Gen/Chains/Tower.lean, Gen/Chains/Curve.lean):
 //
-//   field level: every method `expBy*` of element_exp.go of every field package that has one;
-//   tower level: Expt / ExptHalf / ExptMinus1 / ... / Expc1 / Expc2 of ecc/*/internal/fptower/e{6,12,24}_pairing.go;
-//   curve level: mulBySeed of G1Jac / G2Jac of ecc/*/g1.go, g2.go.
+//	field level: every method `expBy*` of element_exp.go of every field package that has one;
+//	tower level: Expt / ExptHalf / ExptMinus1 / ... / Expc1 / Expc2 of ecc/*/internal/fptower/e{6,12,24}_pairing.go;
+//	curve level: mulBySeed of G1Jac / G2Jac of ecc/*/g1.go, g2.go.
 //
 // Supported Go subset (anything else in a targeted function is FATAL: gvgoslp exits non-zero):
-//   var a, b T / var ( a = new(T) ... ) / a := new(T) / var t [k]T
-//   recv.M(args) and chains recv.M(args).M(args)...   with M in the method table of the level
-//   for i := A; i < B; i++ { straight-line body }      with integer literals A <= B (the body is unrolled B-A times;
-//                                                      a body that is the single step `r.Square(r)` is one `sq r r (B-A)`)
-//   batch := BatchDecompressKarabina([]T{a, b, ...})    (tower)
-//   r.F(x) with F another chain of the same file: inlined with fresh registers (tower)
-//   return z / return z.M(args)
+//
+//	var a, b T / var ( a = new(T) ... ) / a := new(T) / var t [k]T
+//	recv.M(args) and chains recv.M(args).M(args)...   with M in the method table of the level
+//	for i := A; i < B; i++ { straight-line body }      with integer literals A <= B (the body is unrolled B-A times;
+//	                                                   a body that is the single step `r.Square(r)` is one `sq r r (B-A)`)
+//	batch := BatchDecompressKarabina([]T{a, b, ...})    (tower)
+//	r.F(x) with F another chain of the same file: inlined with fresh registers (tower)
+//	return z / return z.M(args)
+//
 // Register 0 is the parameter, register 1 the receiver, the others are the locals in declaration order. The receiver and
 // the parameter are assumed not to alias (aliasing is C19's subject).
 package main
@@ -23,10 +25,9 @@ import (
 	"go/parser"
 	"go/printer"
 	"go/token"
-	"regexp"
 	"os"
 	"path/filepath"
-	"sort"
+	"regexp"
 	"strconv"
 	"strings"
 )
@@ -629,8 +630,6 @@ func runChains() {
 	runTowerChains()
 	runCurveChains()
 }
-
-var _ = sort.Strings
 
 // ---- tower level
 
